@@ -80,6 +80,20 @@ class Work:
             last = p.stdout + p.stderr
         raise Broken("harness build failed:\n" + last[-4000:])
 
+    def build_repo_cmd(self, pkg="./cmd/gokr-rsync", name="gokr-rsync"):
+        """Build a command of /repo's current working tree itself."""
+        out = self.path(name)
+        e2 = self.goenv()
+        e2["GOTOOLCHAIN"] = "local"
+        e2["GOSUMDB"] = "off"
+        last = ""
+        for cmd, env in [(["go"], self.goenv()), (["go1.26"], e2)]:
+            p = subprocess.run(cmd + ["build", "-o", out, pkg], cwd=REPO, env=env, capture_output=True, text=True)
+            if p.returncode == 0:
+                return out
+            last = p.stdout + p.stderr
+        raise Broken("building %s failed:\n%s" % (pkg, last[-4000:]))
+
     def run_harness(self, kind, scen, out, workers=None, timeout=3600, binary=None, extra_env=None, case_timeout=None):
         env = dict(os.environ)
         env["RSVERIF_SCRATCH"] = self.scratch
